@@ -117,6 +117,12 @@ fn ul_block(server: &mut Server, u: &mut Ul, mid: &mut u16) -> Result<(), String
     }
 }
 
+/// (re)send block 0 of the upload, so that a fresh buffer of one block exists
+fn ul_block_again(server: &mut Server, u: &mut Ul, mid: &mut u16) -> Result<(), String> {
+    u.next = 0;
+    ul_block(server, u, mid)
+}
+
 /// send the final block; returns what the application received (None: handler refused)
 fn ul_finish(server: &mut Server, u: &mut Ul, mid: &mut u16) -> Result<Option<Vec<u8>>, String> {
     let s = szx_size(u.szx);
@@ -306,20 +312,21 @@ fn scenario_slow_application(rep: &mut Report, r: &mut Rng, clock: &Clock, d: Du
         rep.violation("slow-app-setup", e, witness);
         return;
     }
-    // a plain request on each key reaches the application, which dawdles past the expiry
-    for (code, path) in [(1u8, "slow"), (3u8, "slowup")] {
+    // a plain request on the key reaches the application, which dawdles past the expiry; the
+    // follow-up block comes right afterwards (nothing else touches the handler in between)
+    let mut slow_exchange = |server: &mut Server, code: u8, path: &str, mid: &mut u16| -> bool {
         let mut q = ReqSpec::new(code, &[path]);
-        mid = mid.wrapping_add(1);
-        q.mid = mid;
+        *mid = mid.wrapping_add(1);
+        q.mid = *mid;
         let mut slow_app = |_q: &CoapRequest<CEp>| {
             clock.advance(d + EPS);
             AppReply::content(b"ok".to_vec())
         };
-        let ex = server.exchange(&q.bytes(), 3, &mut slow_app);
-        if !ex.app_called {
-            rep.violation("slow-app-setup", format!("plain request did not reach the application: {}", ex.summary()), witness);
-            return;
-        }
+        server.exchange(&q.bytes(), 3, &mut slow_app).app_called
+    };
+    if !slow_exchange(&mut server, 1, "slow", &mut mid) {
+        rep.violation("slow-app-setup", "plain GET did not reach the application".into(), witness);
+        return;
     }
     match dl_next(&mut server, &mut dl, &mut mid) {
         Ok(false) => {}
@@ -331,6 +338,16 @@ fn scenario_slow_application(rep: &mut Report, r: &mut Rng, clock: &Clock, d: Du
             rep.violation("expired-download-state-used", e, witness);
             return;
         }
+    }
+    // the upload buffer has been idle since before the first slow exchange; refresh it first so that
+    // only the second slow exchange separates it from its continuation
+    if let Err(e) = ul_block_again(&mut server, &mut ul, &mut mid) {
+        rep.violation("slow-app-setup", e, witness);
+        return;
+    }
+    if !slow_exchange(&mut server, 3, "slowup", &mut mid) {
+        rep.violation("slow-app-setup", "plain PUT did not reach the application".into(), witness);
+        return;
     }
     let offset = ul.next * szx_size(ul.szx);
     match ul_finish(&mut server, &mut ul, &mut mid) {
